@@ -47,6 +47,20 @@ pub struct Scenario {
     /// connections after the first are made while the earlier ones are already exchanging traffic
     /// (the listener waits in `accept` meanwhile)
     pub staggered: bool,
+    /// "exchange" (default) | "hangup" (the server end closes with unread data behind it) | "mux" (a zlink Server
+    /// serving several clients, one of which delivers its calls in pieces)
+    pub kind: String,
+    pub mux: Vec<MuxStep>,
+}
+
+/// One step of a `mux` scenario, executed strictly one after the other.
+#[derive(Debug, Clone, serde::Serialize, serde::Deserialize)]
+pub enum MuxStep {
+    /// the raw client writes the bytes `from..to` of its call `call` (a frame of `len` pad bytes); the reply is
+    /// read after the last piece
+    Piece { call: usize, len: usize, from_pm: u32, to_pm: u32 },
+    /// zlink client `client` makes one complete call with a pad of `len` bytes
+    Call { client: usize, len: usize },
 }
 
 fn plan_to_json(p: &DirPlan) -> Value {
@@ -59,6 +73,7 @@ fn plan_from_json(v: &Value) -> DirPlan {
 impl Scenario {
     pub fn to_json(&self) -> Value {
         json!({"family":"transport","sid":self.sid,"runtime":self.runtime,"inherited":self.inherited,"cancel_ms":self.cancel_ms,"staggered":self.staggered,
+               "kind": self.kind, "mux": serde_json::to_value(&self.mux).unwrap(),
                "conns": self.conns.iter().map(|(a,b)| json!([plan_to_json(a), plan_to_json(b)])).collect::<Vec<_>>()})
     }
     pub fn from_json(v: &Value) -> Scenario {
@@ -68,6 +83,8 @@ impl Scenario {
             inherited: v["inherited"].as_bool().unwrap_or(false),
             cancel_ms: v["cancel_ms"].as_u64().unwrap_or(20),
             staggered: v["staggered"].as_bool().unwrap_or(false),
+            kind: v["kind"].as_str().unwrap_or("exchange").into(),
+            mux: v.get("mux").and_then(|m| serde_json::from_value(m.clone()).ok()).unwrap_or_default(),
             conns: v["conns"].as_array().unwrap().iter().map(|c| (plan_from_json(&c[0]), plan_from_json(&c[1]))).collect(),
         }
     }
@@ -207,7 +224,46 @@ struct Pair<S: Socket> {
 
 type ExchangeResult = (usize, (usize, usize), Vec<SentRec>, Vec<RcvdRec>, Vec<SentRec>, Vec<RcvdRec>);
 
+/// The server end closes while data the client sent is still unread behind it (the kernel then reports a
+/// reset to the client once the client has read everything): what the server wrote before closing must
+/// still arrive, whole and in order, before the client is told about the end.
+async fn hangup_one<S: Socket>(sc: &Scenario, k: usize, p: Pair<S>, sleep: Sleep) -> ExchangeResult {
+    let ids = (p.client.id(), p.server.id());
+    let (plan_cs, plan_sc) = sc.conns[k].clone();
+    let (cr, cw) = p.client.split();
+    let (sr, sw) = p.server.split();
+    let (d0, d1): (Done, Done) = Default::default();
+    let client_send = sender::<S>(cw, k, 0, plan_cs.clone(), sc.cancel_ms, sleep, d0.clone());
+    let server_side = {
+        let d0 = d0.clone();
+        let d1 = d1.clone();
+        let plan_sc = plan_sc.clone();
+        async move {
+            while !d0.get() {
+                sleep(1).await;
+            }
+            sleep(2).await;
+            let sent = sender::<S>(sw, k, 1, plan_sc, 0, sleep, d1).await;
+            // never read: the client's messages stay in the kernel's queue when the socket goes away
+            drop(sr);
+            sent
+        }
+    };
+    // the client starts to read late (often after the close) and possibly slowly
+    let client_recv = receiver::<S>(cr, plan_sc, sc.cancel_ms, sleep, d1);
+    let ((mut s0, s1), r1) = join(join(client_send, server_side), client_recv).await;
+    for x in s0.iter_mut() {
+        if x.res == "ok" {
+            x.res = "unread";
+        }
+    }
+    (k, ids, s0, Vec::new(), s1, r1)
+}
+
 async fn exchange_one<S: Socket>(sc: &Scenario, k: usize, p: Pair<S>, sleep: Sleep) -> ExchangeResult {
+    if sc.kind == "hangup" {
+        return hangup_one(sc, k, p, sleep).await;
+    }
     let ids = (p.client.id(), p.server.id());
     {
         let (plan_cs, plan_sc) = sc.conns[k].clone();
@@ -245,6 +301,182 @@ fn log_results(sc: &Scenario, results: Vec<ExchangeResult>) {
     }
 }
 
+
+// ------------------------------------------------------------------ a Server serving several clients
+
+#[derive(Debug, serde::Serialize, serde::Deserialize)]
+#[serde(tag = "method", content = "parameters")]
+enum MuxCall {
+    #[serde(rename = "t.m.Echo")]
+    Echo { i: u32, pad: String },
+}
+#[derive(Debug, serde::Serialize, serde::Deserialize)]
+struct MuxReply {
+    i: u32,
+    pad: String,
+}
+#[derive(Debug, PartialEq, zlink_core::ReplyError)]
+#[zlink(interface = "t.m", crate = "zlink_core")]
+enum MuxErr {
+    Nope,
+}
+struct MuxSvc;
+impl zlink_core::Service for MuxSvc {
+    type MethodCall<'de> = MuxCall;
+    type ReplyParams<'ser> = MuxReply;
+    type ReplyStreamParams = MuxReply;
+    type ReplyStream = futures_util::stream::Empty<zlink_core::Reply<MuxReply>>;
+    type ReplyError<'ser> = MuxErr;
+    async fn handle<'ser>(
+        &'ser mut self,
+        call: Call<Self::MethodCall<'_>>,
+    ) -> zlink_core::service::MethodReply<Self::ReplyParams<'ser>, Self::ReplyStream, Self::ReplyError<'ser>> {
+        match call.method() {
+            MuxCall::Echo { i, pad } => zlink_core::service::MethodReply::Single(Some(MuxReply { i: *i, pad: pad.clone() })),
+        }
+    }
+}
+
+type MuxResult = Vec<(Vec<SentRec>, Vec<RcvdRec>)>;
+
+/// Client 0 is not zlink: it writes its calls in the pieces the scenario prescribes; between two pieces the
+/// other (zlink) clients complete whole calls, so the server's receive on connection 0 is interrupted in the
+/// middle of a frame.  Every client must get the echo of each of its calls, in order.
+async fn mux_drive<S: Socket>(sc: &Scenario, mut clients: Vec<Connection<S>>, mut raw: std::os::unix::net::UnixStream, sleep: Sleep) -> MuxResult {
+    use std::io::{Read, Write};
+    let n = clients.len() + 1;
+    let mut res: MuxResult = (0..n).map(|_| (Vec::new(), Vec::new())).collect();
+    let mut counters = vec![0usize; n];
+    let mut dead = vec![false; n];
+    let mut inbuf: Vec<u8> = Vec::new();
+    for (si, st) in sc.mux.iter().enumerate() {
+        match st {
+            MuxStep::Piece { call, len, from_pm, to_pm } => {
+                if dead[0] {
+                    continue;
+                }
+                let pad = pad_for(0, 0, *call, *len);
+                let mut frame = serde_json::to_vec(&json!({"method":"t.m.Echo","parameters":{"i":*call as u32,"pad":pad}})).unwrap();
+                frame.push(0);
+                let at = |pm: u32| (frame.len() as u64 * pm as u64 / 1000) as usize;
+                let (a, b) = (at(*from_pm), if *to_pm >= 1000 { frame.len() } else { at(*to_pm) });
+                if *from_pm == 0 {
+                    res[0].0.push(SentRec { seq: *call, len: *len, h: fnv(pad.as_bytes()), res: "ok" });
+                }
+                if raw.write_all(&frame[a..b]).is_err() {
+                    dead[0] = true;
+                    res[0].1.push(RcvdRec { cls: "io_err", i: 0, len: 0, h: String::new() });
+                    continue;
+                }
+                // let the server see the piece (and suspend in the middle of the frame)
+                sleep(if si % 3 == 2 { 0 } else { 1 }).await;
+                if *to_pm >= 1000 {
+                    // the reply
+                    let mut waited = 0;
+                    let rec = loop {
+                        if let Some(p) = inbuf.iter().position(|b| *b == 0) {
+                            let doc: Vec<u8> = inbuf.drain(..=p).collect();
+                            break match serde_json::from_slice::<Value>(&doc[..doc.len() - 1]) {
+                                Ok(v) if v["parameters"]["pad"].is_string() => {
+                                    let pad = v["parameters"]["pad"].as_str().unwrap();
+                                    RcvdRec { cls: "msg", i: v["parameters"]["i"].as_u64().unwrap_or(u32::MAX as u64) as u32, len: pad.len(), h: fnv(pad.as_bytes()) }
+                                }
+                                _ => RcvdRec { cls: "decode_err", i: 0, len: 0, h: String::new() },
+                            };
+                        }
+                        let mut tmp = [0u8; 65536];
+                        match raw.read(&mut tmp) {
+                            Ok(0) => break RcvdRec { cls: "eof", i: 0, len: 0, h: String::new() },
+                            Ok(k) => inbuf.extend_from_slice(&tmp[..k]),
+                            Err(e) if e.kind() == std::io::ErrorKind::WouldBlock => {
+                                waited += 1;
+                                if waited > 3000 {
+                                    break RcvdRec { cls: "idle", i: 0, len: 0, h: String::new() };
+                                }
+                                sleep(1).await;
+                            }
+                            Err(_) => break RcvdRec { cls: "io_err", i: 0, len: 0, h: String::new() },
+                        }
+                    };
+                    if rec.cls != "msg" {
+                        dead[0] = true;
+                    }
+                    res[0].1.push(rec);
+                }
+            }
+            MuxStep::Call { client, len } => {
+                let c = *client;
+                if dead[c] {
+                    continue;
+                }
+                let seq = counters[c];
+                counters[c] += 1;
+                let pad = pad_for(c, 0, seq, *len);
+                res[c].0.push(SentRec { seq, len: *len, h: fnv(pad.as_bytes()), res: "ok" });
+                let call = Call::new(MuxCall::Echo { i: seq as u32, pad });
+                let fut = Box::pin(clients[c - 1].call_method::<MuxCall, MuxReply, MuxErr>(&call));
+                let rec = match select(fut, sleep(3000)).await {
+                    Either::Left((Ok(Ok(r)), _)) => match r.into_parameters() {
+                        Some(p) => RcvdRec { cls: "msg", i: p.i, len: p.pad.len(), h: fnv(p.pad.as_bytes()) },
+                        None => RcvdRec { cls: "decode_err", i: 0, len: 0, h: String::new() },
+                    },
+                    Either::Left((Ok(Err(_)), _)) => RcvdRec { cls: "method_err", i: 0, len: 0, h: String::new() },
+                    Either::Left((Err(e), _)) => RcvdRec { cls: crate::util::err_class(&e), i: 0, len: 0, h: String::new() },
+                    Either::Right(_) => RcvdRec { cls: "idle", i: 0, len: 0, h: String::new() },
+                };
+                if rec.cls != "msg" {
+                    dead[c] = true;
+                }
+                res[c].1.push(rec);
+            }
+        }
+    }
+    // nothing further is owed to anybody
+    for (c, d) in dead.iter().enumerate() {
+        if !*d {
+            res[c].1.push(RcvdRec { cls: "idle", i: 0, len: 0, h: String::new() });
+        }
+    }
+    res
+}
+
+fn log_mux(sc: &Scenario, ids: Vec<usize>, results: MuxResult) {
+    ev(json!({"ev":"conns","ids": ids, "n": ids.len() / 2, "inherited": sc.inherited, "runtime": sc.runtime}));
+    for (k, (s, r)) in results.into_iter().enumerate() {
+        for x in &s {
+            ev(json!({"ev":"sent","id":k,"dir":0,"seq":x.seq,"len":x.len,"h":x.h,"res":x.res}));
+        }
+        for (j, x) in r.iter().enumerate() {
+            ev(json!({"ev":"rcvd","id":k,"dir":0,"k":j,"cls":x.cls,"i":x.i,"len":x.len,"h":x.h}));
+        }
+        ev(json!({"ev":"dir_end","id":k,"dir":0}));
+    }
+}
+
+macro_rules! mux_body {
+    ($sc:expr, $path:expr, $listener:expr, $connect:path, $sleep:expr) => {{
+        let sc = $sc;
+        // the kernel queues the connections; the server accepts them in this order once it runs
+        let raw = std::os::unix::net::UnixStream::connect(&$path).unwrap();
+        raw.set_nonblocking(true).unwrap();
+        let nz = sc.mux.iter().filter_map(|s| if let MuxStep::Call { client, .. } = s { Some(*client) } else { None }).max().unwrap_or(0);
+        let mut clients = Vec::new();
+        for _ in 0..nz {
+            clients.push($connect(&$path).await.unwrap());
+        }
+        // (identifiers: the clients' ends, each counted twice to fit the `conns` event)
+        let mut ids: Vec<usize> = clients.iter().map(|c| c.id()).collect();
+        let extra: Vec<usize> = ids.iter().map(|i| i + 1_000_000).collect();
+        ids.extend(extra);
+        let server = zlink_core::Server::new($listener, MuxSvc);
+        let results = match select(Box::pin(server.run()), Box::pin(mux_drive(sc, clients, raw, $sleep))).await {
+            Either::Right((r, _)) => r,
+            Either::Left(_) => Vec::new(),
+        };
+        log_mux(sc, ids, results);
+    }};
+}
+
 fn sock_path(sid: &str) -> std::path::PathBuf {
     let dir = std::env::temp_dir().join(format!("zv-c19-{}", std::process::id()));
     std::fs::create_dir_all(&dir).unwrap();
@@ -263,7 +495,7 @@ pub fn run(sc: &Scenario, stats: &mut Stats) {
     stats.scenarios += 1;
     stats.messages += sc.conns.iter().map(|(a, b)| (a.sizes.len() + b.sizes.len()) as u64).sum::<u64>();
     stats.cancelled += sc.conns.iter().map(|(a, b)| (a.cancel_at.len() + b.cancel_at.len()) as u64).sum::<u64>();
-    ev(json!({"ev":"reset","sid":sc.sid,"runtime":sc.runtime,"inherited":sc.inherited,"n":sc.conns.len()}));
+    ev(json!({"ev":"reset","sid":sc.sid,"runtime":sc.runtime,"inherited":sc.inherited,"n":sc.conns.len(),"kind":sc.kind}));
     let path = sock_path(&sc.sid);
     let n = sc.conns.len();
     let (tx, rx) = std::sync::mpsc::channel::<Vec<String>>();
@@ -277,6 +509,7 @@ pub fn run(sc: &Scenario, stats: &mut Stats) {
         if sc.runtime == "tokio" {
             let rt = tokio::runtime::Builder::new_current_thread().enable_all().build().unwrap();
             rt.block_on(async {
+                #[allow(unused_mut)]
                 let mut listener = if sc.inherited {
                     let std_l = std::os::unix::net::UnixListener::bind(&path).unwrap();
                     let fd: OwnedFd = std_l.into();
@@ -284,6 +517,10 @@ pub fn run(sc: &Scenario, stats: &mut Stats) {
                 } else {
                     zlink_tokio::unix::bind(&path).unwrap()
                 };
+                if sc.kind == "mux" {
+                    mux_body!(sc, path, listener, zlink_tokio::unix::connect, tokio_sleep);
+                    return;
+                }
                 let mut results = Vec::new();
                 if sc.staggered {
                     // connection k+1 is accepted while connection k is already exchanging traffic
@@ -322,6 +559,10 @@ pub fn run(sc: &Scenario, stats: &mut Stats) {
                 } else {
                     zlink_smol::unix::bind(&path).unwrap()
                 };
+                if sc.kind == "mux" {
+                    mux_body!(sc, path, listener, zlink_smol::unix::connect, smol_sleep);
+                    return;
+                }
                 let mut results = Vec::new();
                 if sc.staggered {
                     // connection k+1 is accepted while connection k is already exchanging traffic
@@ -399,7 +640,7 @@ pub fn gen_plain(r: &mut Rng, sid: String, runtime: &str, big: bool) -> Scenario
             (mk(r), mk(r))
         })
         .collect();
-    Scenario { sid, runtime: runtime.into(), inherited: r.chance(1, 2), conns, cancel_ms: 20, staggered: r.chance(1, 2) }
+    Scenario { sid, runtime: runtime.into(), inherited: r.chance(1, 2), conns, cancel_ms: 20, staggered: r.chance(1, 2), kind: "exchange".into(), mux: vec![] }
 }
 
 /// Sends larger than the kernel socket buffer are abandoned while the peer is not reading.
@@ -416,7 +657,56 @@ pub fn gen_cancel(r: &mut Rng, sid: String, runtime: &str) -> Scenario {
             (cs, sc)
         })
         .collect();
-    Scenario { sid, runtime: runtime.into(), inherited: false, conns, cancel_ms: 15, staggered: false }
+    Scenario { sid, runtime: runtime.into(), inherited: false, conns, cancel_ms: 15, staggered: false, kind: "exchange".into(), mux: vec![] }
+}
+
+
+/// The server end sends, then closes with the client's messages unread behind it.
+pub fn gen_hangup(r: &mut Rng, sid: String, runtime: &str) -> Scenario {
+    let n = r.range(1, 3);
+    let conns = (0..n)
+        .map(|_| {
+            let cs = DirPlan { sizes: (0..r.range(1, 4)).map(|_| r.range(0, 2000)).collect(), slow: 0, cancel_at: vec![] };
+            // mostly small enough to sit in the kernel's buffer when the server closes; sometimes more
+            let big = r.chance(1, 4);
+            let sc = DirPlan {
+                sizes: (0..r.range(1, 8)).map(|_| if big { r.range(0, 150_000) } else { r.range(0, 6000) }).collect(),
+                slow: if r.chance(1, 2) { 0 } else { r.range(1, 3) },
+                cancel_at: vec![],
+            };
+            (cs, sc)
+        })
+        .collect();
+    // cancel_ms doubles as the delay before the client starts to read
+    Scenario { sid, runtime: runtime.into(), inherited: false, conns, cancel_ms: *r.pick(&[0u64, 10, 40]), staggered: false, kind: "hangup".into(), mux: vec![] }
+}
+
+/// A zlink Server, a client that delivers its calls in pieces and 1..3 zlink clients calling in between.
+pub fn gen_mux(r: &mut Rng, sid: String, runtime: &str) -> Scenario {
+    let others = r.range(1, 3);
+    let mut mux = Vec::new();
+    for call in 0..r.range(1, 4) {
+        let len = match r.below(4) {
+            0 => r.range(0, 100),
+            1 | 2 => r.range(300, 3000),
+            _ => r.range(3000, 40_000),
+        };
+        let mut cuts: Vec<u32> = (0..r.range(0, 3)).map(|_| r.range(1, 999) as u32).collect();
+        cuts.sort();
+        cuts.dedup();
+        cuts.push(1000);
+        let mut from = 0u32;
+        for c in cuts {
+            mux.push(MuxStep::Piece { call, len, from_pm: from, to_pm: c });
+            from = c;
+            if c < 1000 || r.chance(1, 2) {
+                for _ in 0..r.range(1, 3) {
+                    mux.push(MuxStep::Call { client: r.range(1, others), len: if r.chance(1, 5) { r.range(1000, 30_000) } else { r.range(0, 400) } });
+                }
+            }
+        }
+    }
+    Scenario { sid, runtime: runtime.into(), inherited: r.chance(1, 3), conns: vec![], cancel_ms: 0, staggered: false, kind: "mux".into(), mux }
 }
 
 // ------------------------------------------------------------------ identifiers under contention
